@@ -16,6 +16,7 @@ import (
 	"fmt"
 	"io"
 	"net"
+	"os"
 	"sync"
 	"sync/atomic"
 	"testing"
@@ -51,9 +52,39 @@ type c10tNoListener struct{}
 
 func (c10tNoListener) OnConnectionListUpdate(map[string]session.ManagedMuxSession) {}
 
+// c10tFreezeConn is the peer's end of a TCP connection that can "vanish silently": once frozen nothing is read from the
+// socket any more and writes are swallowed, while the TCP connection itself stays open (no FIN, no RST) - a peer behind a
+// dead NAT entry or a hung process.
+type c10tFreezeConn struct {
+	net.Conn
+	frozen   atomic.Bool
+	unfreeze chan struct{}
+}
+
+func (c *c10tFreezeConn) Read(p []byte) (int, error) {
+	if c.frozen.Load() {
+		<-c.unfreeze // never closed before the connection is
+		return 0, io.EOF
+	}
+	n, err := c.Conn.Read(p)
+	if c.frozen.Load() {
+		<-c.unfreeze
+		return 0, io.EOF
+	}
+	return n, err
+}
+
+func (c *c10tFreezeConn) Write(p []byte) (int, error) {
+	if c.frozen.Load() {
+		return len(p), nil
+	}
+	return c.Conn.Write(p)
+}
+
 // c10tPeerConn is one TCP connection as the harness (the peer) holds it.
 type c10tPeerConn struct {
 	conn   net.Conn
+	fz     *c10tFreezeConn
 	sess   *yamux.Session
 	closed atomic.Bool // closed by the harness
 }
@@ -94,6 +125,10 @@ func c10tRun(c c10tCase) (res c10tResult) {
 		res.viol = c10tAcceptDuringShutdown()
 		return
 	}
+	if len(c.Ops) == 1 && c.Ops[0].K == "dial-during-shutdown" {
+		res.viol = c10tDialDuringShutdown()
+		return
+	}
 	ctx, cancel := context.WithCancel(context.Background())
 	defer cancel()
 	var mu sync.Mutex
@@ -132,12 +167,13 @@ func c10tRun(c c10tCase) (res c10tResult) {
 				_ = cn.Close()
 				continue
 			}
-			s, err := yamux.Server(cn, c10tYamuxCfg())
+			fz := &c10tFreezeConn{Conn: cn, unfreeze: make(chan struct{})}
+			s, err := yamux.Server(fz, c10tYamuxCfg())
 			if err != nil {
 				_ = cn.Close()
 				continue
 			}
-			add(&c10tPeerConn{conn: cn, sess: s})
+			add(&c10tPeerConn{conn: cn, fz: fz, sess: s})
 		}
 	}
 	if c.Role == "establisher" {
@@ -257,6 +293,7 @@ func c10tRun(c c10tCase) (res c10tResult) {
 		res.viol = fmt.Sprintf("with a reachable peer the pool of %d never filled: %d live session(s) after 25 s", c.N, len(mgr.GetMuxConnections()))
 		return
 	}
+	var vanished []*c10tPeerConn
 	for _, o := range c.Ops {
 		switch o.K {
 		case "kill":
@@ -269,6 +306,18 @@ func c10tRun(c c10tCase) (res c10tResult) {
 				pc.kill()
 			}
 			res.classes["all_sessions_killed"] = true
+		case "vanish":
+			// establishing role: one peer stops answering without closing anything
+			if c.Role == "establisher" {
+				for _, pc := range liveConns() {
+					if pc.fz != nil && !pc.fz.frozen.Load() {
+						pc.fz.frozen.Store(true)
+						vanished = append(vanished, pc)
+						res.classes["peer_vanished_silently"] = true
+						break
+					}
+				}
+			}
 		case "refuse":
 			if c.Role == "establisher" {
 				refuse.Store(true)
@@ -335,6 +384,30 @@ func c10tRun(c c10tCase) (res c10tResult) {
 			lisMu.Unlock()
 		}
 		// (the dial back-off of the establisher grows to at most 30 s after a long outage; histories here keep outages short)
+		if len(vanished) > 0 {
+			// the session over a silently vanished peer has to be noticed first (yamux keep-alive: 30 s + 10 s); until
+			// then it counts as live, so "full" alone proves nothing: wait until the proxy has given those connections up
+			deadline := time.Now().Add(150 * time.Second)
+			for {
+				left := 0
+				for _, pc := range vanished {
+					one := make([]byte, 1)
+					_ = pc.conn.SetReadDeadline(time.Now().Add(10 * time.Millisecond))
+					if _, err := pc.conn.Read(one); err != nil && !os.IsTimeout(err) {
+						continue // the proxy closed its end
+					}
+					left++
+				}
+				if left == 0 {
+					break
+				}
+				if time.Now().After(deadline) {
+					res.viol = fmt.Sprintf("%d peer(s) stopped answering 150 s ago (connection left open, no data): the proxy still holds the session(s) instead of dropping them and re-dialling", left)
+					return
+				}
+				time.Sleep(500 * time.Millisecond)
+			}
+		}
 		if !waitFull(45 * time.Second) {
 			res.viol = fmt.Sprintf("the peer is reachable again but the pool of %d did not return to full strength within 45 s: %d live session(s)", c.N, len(mgr.GetMuxConnections()))
 			return
@@ -369,12 +442,10 @@ func c10tRun(c c10tCase) (res c10tResult) {
 		open := 0
 		mu.Lock()
 		for _, pc := range conns {
-			if !pc.closed.Load() && !pc.gone() {
-				// a dialer's connection that the pool never accepted sits in the listen backlog: the kernel resets it
-				// when the listener closes; a ping tells an accepted-and-open one from that
-				if _, err := pc.sess.Ping(); err == nil {
-					open++
-				}
+			// (a dialer's connection that the pool never accepted sits in the listen backlog: the kernel resets it when
+			// the listener closes, which the peer's yamux session notices like any other close)
+			if !pc.closed.Load() && !pc.gone() && (pc.fz == nil || !pc.fz.frozen.Load()) {
+				open++
 			}
 		}
 		mu.Unlock()
@@ -382,7 +453,7 @@ func c10tRun(c c10tCase) (res c10tResult) {
 			break
 		}
 		if time.Now().After(deadline) {
-			res.viol = fmt.Sprintf("10 s after shutdown completed %d connection(s) to the peer are still open and answering", open)
+			res.viol = fmt.Sprintf("10 s after shutdown completed %d connection(s) to the peer have not been closed by the proxy", open)
 			return
 		}
 		time.Sleep(50 * time.Millisecond)
@@ -410,7 +481,7 @@ func c10tRun(c c10tCase) (res c10tResult) {
 	return res
 }
 
-const c10tRule = "tcp part: the pool as NewGRPCMuxManager assembles it (establisher.go / receiver.go providers, real yamux over loopback TCP, real time), N=1-3; the harness is the peer: listener that serves, accepts-and-hangs-up or is down (establishing role), dialers holding N+extra connections (receiving role); histories of kill one / kill all / refuse / down / up / wait, then either healing + shutdown or shutdown in whatever state the history left (peer possibly unreachable); oracles: registered sessions never exceed N (sampled every 5 ms), the pool is full again within 45 s once the peer is reachable, after shutdown the manager finishes, no connection still answers, nothing is registered and the listener is gone; non-trivial = a session was killed or the peer was unreachable before healing was checked"
+const c10tRule = "tcp part: the pool as NewGRPCMuxManager assembles it (establisher.go / receiver.go providers, real yamux over loopback TCP, real time), N=1-3; the harness is the peer: listener that serves, accepts-and-hangs-up or is down (establishing role), dialers holding N+extra connections (receiving role); histories of kill one / kill all / refuse / down / up / wait / vanish (a peer stops answering but leaves the connection open: thorough tier and one committed replay), then either healing + shutdown or shutdown in whatever state the history left (peer possibly unreachable); oracles: registered sessions never exceed N (sampled every 5 ms), the pool is full again within 45 s once the peer is reachable, after shutdown the manager finishes, no connection still answers, nothing is registered and the listener is gone; non-trivial = a session was killed or the peer was unreachable before healing was checked"
 
 func TestVF_C10_TCP(t *testing.T) {
 	const part = "tcp"
@@ -458,6 +529,13 @@ func TestVF_C10_TCP(t *testing.T) {
 		t.Fatalf("C10 violated: %s (replay %s)", v, p)
 	}
 	st.Case(vfshared.Fingerprint("accept-during-shutdown"), true, "accepted_while_shutting_down")
+	if v := c10tDialDuringShutdown(); v != "" {
+		c := c10tCase{Role: "establisher", N: 1, Ops: []c10tOp{{K: "dial-during-shutdown"}}}
+		p := vfshared.WriteReplay("C10", part, c)
+		st.Violation(p, v)
+		t.Fatalf("C10 violated: %s (replay %s)", v, p)
+	}
+	st.Case(vfshared.Fingerprint("dial-during-shutdown"), true, "dialled_while_shutting_down")
 	rapid.Check(t, func(rt *rapid.T) {
 		c := c10tCase{Role: rapid.SampledFrom([]string{"establisher", "receiver"}).Draw(rt, "role"), N: rapid.IntRange(1, 3).Draw(rt, "n")}
 		if c.Role == "receiver" {
@@ -465,7 +543,11 @@ func TestVF_C10_TCP(t *testing.T) {
 		}
 		n := rapid.IntRange(1, 5).Draw(rt, "nops")
 		for i := 0; i < n; i++ {
-			k := rapid.SampledFrom([]string{"kill", "kill", "killAll", "refuse", "accept", "down", "up", "wait", "wait"}).Draw(rt, "k")
+			kinds := []string{"kill", "kill", "killAll", "refuse", "accept", "down", "up", "wait", "wait"}
+			if vfshared.Scale(0, 1) == 1 && i == 0 {
+				kinds = append(kinds, "vanish") // thorough tier only (a case with it takes a minute); quick runs one committed replay
+			}
+			k := rapid.SampledFrom(kinds).Draw(rt, "k")
 			o := c10tOp{K: k}
 			switch k {
 			case "kill":
@@ -503,6 +585,45 @@ type c10tTrackedConn struct {
 }
 
 func (c *c10tTrackedConn) Close() error { c.closed.Store(true); return c.Conn.Close() }
+
+// c10tDialDuringShutdown: a dial of the establishing provider that completes when the lifetime has already ended: the
+// connection is either handed to the caller (the provider loop closes it: scripted part) or closed - never just dropped.
+func c10tDialDuringShutdown() string {
+	ln, err := net.Listen("tcp", "127.0.0.1:0")
+	if err != nil {
+		return ""
+	}
+	defer ln.Close()
+	acc := make(chan net.Conn, 1)
+	go func() {
+		if cn, err := ln.Accept(); err == nil {
+			acc <- cn
+		}
+	}()
+	ctx, cancel := context.WithCancel(context.Background())
+	cancel()
+	p := &establishingConnProvider{serverAddress: ln.Addr().String(), tlsWrapper: func(c net.Conn) net.Conn { return c }, logger: log.NewNoopLogger(), lifetime: ctx, metricLabels: []string{"vf", "mux-client", "vf"}}
+	got, _ := p.NewConnection()
+	var peer net.Conn
+	select {
+	case peer = <-acc:
+	case <-time.After(2 * time.Second):
+		if got != nil {
+			_ = got.Close()
+		}
+		return "" // nothing was dialled
+	}
+	defer peer.Close()
+	if got != nil {
+		_ = got.Close()
+		return ""
+	}
+	_ = peer.SetReadDeadline(time.Now().Add(3 * time.Second))
+	if _, err := peer.Read(make([]byte, 1)); err != nil && !os.IsTimeout(err) {
+		return "" // closed by the provider
+	}
+	return "the establishing provider completed a dial while it was shutting down and neither handed the connection on nor closed it (the peer still sees it open 3 s later)"
+}
 
 // c10tAcceptDuringShutdown: a connection that the receiving provider accepts after the lifetime ended has no owner;
 // "after shutdown every connection is closed" requires the provider to close it.
